@@ -358,3 +358,56 @@ func (n *Net) Dial(l *Listener, ip string, port int) *Conn {
 
 // Peer returns the other end (harness inspection only).
 func (c *Conn) Peer() *Conn { return c.peer }
+
+// ---- outgoing datagrams (tracker registration) ----
+
+// Datagram is one UDP datagram the server sent.
+type Datagram struct {
+	To      string
+	Payload []byte
+	At      time.Duration
+}
+
+// Out, when set by a scenario, receives every datagram written to a connection made by DialOut.  While it is nil the
+// simulated host has no route: DialOut fails, as a dial does on a machine without network.
+var Out func(d Datagram)
+
+type dgramConn struct {
+	to     string
+	closed bool
+}
+
+// DialOut replaces net.Dial in the instrumented server (simify).  Only "udp" exists; every Write is one datagram.
+func DialOut(network, address string) (net.Conn, error) {
+	simrt.Yield("dial")
+	if network != "udp" || Out == nil {
+		return nil, fmt.Errorf("dial %s %s: network is unreachable", network, address)
+	}
+	if _, _, err := net.SplitHostPort(address); err != nil {
+		return nil, fmt.Errorf("dial %s %s: %w", network, address, err)
+	}
+	return &dgramConn{to: address}, nil
+}
+
+func (c *dgramConn) Write(b []byte) (int, error) {
+	simrt.Yield("sendto")
+	if c.closed {
+		return 0, net.ErrClosed
+	}
+	if f := Out; f != nil {
+		f(Datagram{To: c.to, Payload: append([]byte{}, b...)})
+	}
+	return len(b), nil
+}
+func (c *dgramConn) Read(b []byte) (int, error)         { return 0, io.EOF }
+func (c *dgramConn) Close() error                       { c.closed = true; return nil }
+func (c *dgramConn) LocalAddr() net.Addr                { return dgramAddr("local") }
+func (c *dgramConn) RemoteAddr() net.Addr               { return dgramAddr(c.to) }
+func (c *dgramConn) SetDeadline(t time.Time) error      { return nil }
+func (c *dgramConn) SetReadDeadline(t time.Time) error  { return nil }
+func (c *dgramConn) SetWriteDeadline(t time.Time) error { return nil }
+
+type dgramAddr string
+
+func (a dgramAddr) Network() string { return "udp" }
+func (a dgramAddr) String() string  { return string(a) }
